@@ -16,7 +16,7 @@ RULE = ("one set of reference parameters (unit quaternion / angle, translation) 
         "holding 1..5 values. Oracle: NumPy R p + t; (XY)p = X(Yp); X^-1(Xp) = p; column j of a d x N result = single call on "
         "column j; M-valued pose x one point = one column per value. Non-trivial: N >= 2, or N = d, or multi-valued pose, or "
         "|p| / |t| ratio > 1e3, or a non-list container.")
-RULE = RULE + probes.RULE_TEXT + (probes.AUG_TEXT if PROPERTY_ID in probes.AUG_PROPS else "")
+RULE = RULE + probes.RULE_TEXT + (probes.AUG_TEXT if PROPERTY_ID in probes.AUG_PROPS else "") + probes.VARIANT_TEXT
 ASSUMPTIONS = ["tolerance 1e-9*max(1,|t|,|p|)", "single-vector results are compared after ravel(): the statement fixes values, not (d,1) vs (d,)",
                "column-by-column equality of a d x N call with N single calls is judged to 1e-12 relative (BLAS may sum in a different order)",
                "multi-valued pose x (d,N) matrix is outside the statement and not called"]
@@ -42,7 +42,7 @@ def s_case(dim):
 
 
 def check_case(case):
-    if case.get("kind") in ("hist", "aug"):
+    if case.get("kind") in ("hist", "aug", "variant"):
         return probes.run(case, PROPERTY_ID)
     return _pt(case, 3 if case["kind"] == "pt3" else 2)
 
@@ -243,7 +243,7 @@ def _pt(case, dim):
 
 
 def classify(case):
-    if case.get("kind") in ("hist", "aug"):
+    if case.get("kind") in ("hist", "aug", "variant"):
         return probes.classify(case)
     dim = 3 if case["kind"] == "pt3" else 2
     N = len(case["pts"])
